@@ -49,6 +49,13 @@ def class_name(node):
     return s
 
 
+INLINER = [None]      # set by the rule modules: call node -> (inlined expression, Func) for single-return package helpers
+
+
+def set_inliner(f):
+    INLINER[0] = f
+
+
 class AEval:
     def __init__(self, atom):
         """atom(node) -> value, or AEval.NO if the node is not a model atom"""
@@ -263,6 +270,10 @@ class AEval:
                 t = self.ev(args[0])
                 if isinstance(t, tuple) and t and t[0] == "TYPE":
                     return class_name(args[1]) in t[1].classes
+        if INLINER[0] is not None:
+            r = INLINER[0](e)
+            if r is not None:
+                return self.ev(r[0])
         raise Inconclusive("guard evaluator: unsupported call `%s`" % u(e))
 
     def kind(self, node):
